@@ -335,10 +335,12 @@ def is_modelled(case: dict) -> bool:
     return (case.get("sched") or {"type": "empty"})["type"] in ("empty", "scripted")
 
 
-def model_request(case: dict, fail_at=None, resume: bool = False) -> Optional[dict]:
+def model_request(case: dict, fail_at=None, resume: bool = False, queue: str = "canonical") -> Optional[dict]:
     """Request for drv_C01 (None for the real algorithms, which only the oracle sees).
     fail_at: extra periods at which the scheduler raises; resume=True asks the driver to
-    continue a failed run with the same script minus the failures."""
+    continue a failed run with the same script minus the failures; queue="heap" runs the model
+    over the transcription of CPython's array heap (exact tie order: use `compare(...,
+    exact_ties=True)`), "canonical" over the stable-sort queue (ties canonicalised by `compare`)."""
     if not is_modelled(case):
         return None
     sc = case.get("sched") or {"type": "empty"}
@@ -369,6 +371,8 @@ def model_request(case: dict, fail_at=None, resume: bool = False) -> Optional[di
     }
     if resume:
         req["resume"] = {"type": "scripted", "default": default, "script": script_clean}
+    if queue == "heap":
+        req["queue"] = "heap"
     return req
 
 
@@ -447,9 +451,15 @@ def _mat_diff(name, a, b, diffs):
                 return
 
 
-def compare_state(case: dict, obs: dict, m: dict, diffs: List[str], tag: str = "") -> None:
-    """obs: `observe` output, m: decoded model answer."""
-    tie = tie_sensitive_error(case, obs)
+def compare_state(case: dict, obs: dict, m: dict, diffs: List[str], tag: str = "", exact_ties: bool = False) -> None:
+    """obs: `observe` output, m: decoded model answer.  exact_ties: the model ran over the heap
+    queue, so event order among equal keys is compared exactly and nothing is exempted."""
+    if exact_ties:
+        if obs["event_history"] != m["event_history"]:
+            diffs.append(f"{tag}event_history (exact order): impl {obs['event_history']} model {m['event_history']}")
+        if obs["ev_history"] != m["ev_history"]:
+            diffs.append(f"{tag}ev_history (exact order): impl {obs['ev_history']} model {m['ev_history']}")
+    tie = (not exact_ties) and tie_sensitive_error(case, obs)
     for k in ("err", "iter") if tie else ("err", "iter", "queue_empty", "resolve", "last_upd"):
         if obs[k] != m[k]:
             diffs.append(f"{tag}{k}: impl {obs[k]!r} model {m[k]!r}")
@@ -490,17 +500,17 @@ def compare_state(case: dict, obs: dict, m: dict, diffs: List[str], tag: str = "
         diffs.append(f"{tag}noise draws consumed: impl {obs['noise_draws']} model {m.get('noise_draws')}")
 
 
-def compare(case: dict, obs: dict, model: dict) -> List[str]:
+def compare(case: dict, obs: dict, model: dict, exact_ties: bool = False) -> List[str]:
     diffs: List[str] = []
     m = decode_model(model)
-    compare_state(case, obs, m, diffs)
+    compare_state(case, obs, m, diffs, exact_ties=exact_ties)
     if "first" in obs or "first" in m:
         if ("first" in obs) != ("first" in m):
             diffs.append("resume: only one side failed in the first run")
         else:
             o1 = dict(obs["first"])
             o1.pop("noise_draws", None)
-            compare_state(case, o1, m["first"], diffs, tag="first run: ")
+            compare_state(case, o1, m["first"], diffs, tag="first run: ", exact_ties=exact_ties)
     return diffs[:12]
 
 
